@@ -966,7 +966,16 @@ where
 
         cache.clear_if_invalid(manager, vars);
 
-        inner(manager, edge.borrowed(), cache) >> (manager.num_levels() - vars)
+        // `inner()` counts the satisfying assignments over the manager's
+        // variables. Variables beyond those (`vars > num_levels`) are don't
+        // cares, exactly as for B(C)DDs; `num_levels - vars` would underflow.
+        let count = inner(manager, edge.borrowed(), cache);
+        let num_levels = manager.num_levels();
+        if vars >= num_levels {
+            count << (vars - num_levels)
+        } else {
+            count >> (num_levels - vars)
+        }
     }
 
     fn pick_cube_edge<'id, 'a>(
